@@ -1,6 +1,138 @@
-(* C06 placeholder *)
-From GV Require Import Prelude.Base Model.Registry.
+(* C06 — Identifiers are unique within a workspace and stable across copies.
+   Only statements, each closed by [exact] (short glue allowed) and followed by Print Assumptions.
+
+   [run c init h] is the state of two workspaces after history h (any list of creations with fresh or caller-supplied
+   identifiers, data, property groups, copies within / across workspaces, removals, deaths of unreferenced instances,
+   listing getters, look-ups).  An [owner] is a live instance whose registration succeeded; [holds w ws u e] says that
+   e is an owner of kind group/object/data/property group in workspace ws with identifier u.
+   [c : cfg] says whether a refused registration undoes the parent assignment; [cur] (generated/C06Cfg.v) is what the
+   checked tree does (behavioural probe on every run).                                                               *)
+From GV Require Import Prelude.Base Model.Registry Proofs.RegistryProofs Proofs.RegistryTheorems.
 From GVgen Require Import C06Cfg.
-Theorem C06_placeholder : forall alive d k v d', insert_once alive d k v = Some d' -> dget d k = None \/ exists e, dget d k = Some e /\ alive e = false.
-Proof. intros alive d k v d'. unfold insert_once. destruct (dget d k) as [e|]; [|auto]. destruct (alive e) eqn:A; [discriminate|]. intros _. right. exists e. auto. Qed.
-Print Assumptions C06_placeholder.
+
+(* 0. the checked tree undoes the parent assignment of a refused creation; fails on a tree without the repair *)
+Theorem C06_checked_tree_is_repaired : cur = repaired.
+Proof. reflexivity. Qed.
+Print Assumptions C06_checked_tree_is_repaired.
+
+(* 1. the registry invariant after ALL histories: per registry the keys are distinct; every entry points to an instance
+      of that workspace and kind carrying that identifier; every live registered instance is the referent of its own
+      entry (a live entry is never overwritten by insert_once nor dropped by get_clean_ref / remove_none_referents);
+      identifiers in use are below the uuid4 counter *)
+Theorem C06_registry_invariant : forall c h, good (run c init h).
+Proof. exact reachable_good. Qed.
+Print Assumptions C06_registry_invariant.
+
+(* 2. per_kind_unique: no two live registered instances of one kind share an identifier within a workspace *)
+Theorem C06_per_kind_unique : forall c h e1 e2,
+  let w := run c init h in
+  owner w e1 -> owner w e2 ->
+  ews (E w e1) = ews (E w e2) -> ekind (E w e1) = ekind (E w e2) -> euid (E w e1) = euid (E w e2) -> e1 = e2.
+Proof. exact per_kind_unique. Qed.
+Print Assumptions C06_per_kind_unique.
+
+(* the weakref_utils primitive behind it: insert_once succeeds only over an absent or dead reference *)
+Theorem C06_insert_once_refuses_live_duplicates : forall alive d k v,
+  (exists e, dget d k = Some e /\ alive e = true) <-> insert_once alive d k v = None.
+Proof.
+  intros alive d k v. unfold insert_once. destruct (dget d k) as [e|].
+  - destruct (alive e) eqn:A; split; try discriminate; try reflexivity.
+    + intros _. exists e. split; [reflexivity | exact A].
+    + intros [e' [H1 H2]]. inversion H1; subst. congruence.
+  - split; [intros [e [H _]]; discriminate | discriminate].
+Qed.
+Print Assumptions C06_insert_once_refuses_live_duplicates.
+
+(* FULL STRENGTH, REFUTED in every variant: uniqueness across kinds.  The registries are per kind: a group may be
+   created under the identifier of a live object (open finding cross-kind-identifier-shared) ... *)
+Theorem C06_cross_kind_unique_refuted : forall c, ~ cross_kind_unique_full c.
+Proof. exact cross_kind_unique_refuted. Qed.
+Print Assumptions C06_cross_kind_unique_refuted.
+
+(* ... and get_entity then answers with the group: the object is masked *)
+Theorem C06_cross_kind_lookup_masks_the_object :
+  forall c, snd (step c (run c init h_cross) (OLookup 0 5)) = Found 7.
+Proof. exact cross_kind_lookup_masks_the_object. Qed.
+Print Assumptions C06_cross_kind_lookup_masks_the_object.
+
+(* 3. lookup_returns_owner (PARTIAL: side condition = no owner of a kind that find_entity asks earlier shares the
+      identifier; exactly the condition the refutation above violates) *)
+Theorem C06_lookup_returns_owner : forall c h e,
+  let w := run c init h in
+  owner w e -> ekind (E w e) <> KType ->
+  (forall e', holds w (ews (E w e)) (euid (E w e)) e' -> lookup_rank (ekind (E w e)) <= lookup_rank (ekind (E w e'))) ->
+  step c w (OLookup (ews (E w e)) e) = (fst (get_entity w (ews (E w e)) (euid (E w e))), Found e).
+Proof. exact lookup_returns_owner. Qed.
+Print Assumptions C06_lookup_returns_owner.
+
+(* whatever a look-up returns is a live registered holder of that identifier in that workspace *)
+Theorem C06_lookup_result_is_an_owner : forall c h ws u x,
+  let w := run c init h in snd (get_entity w ws u) = Some x -> holds w ws u x.
+Proof. exact lookup_result_is_an_owner. Qed.
+Print Assumptions C06_lookup_result_is_an_owner.
+
+(* 4. the identifier rule used for every piece of a copy (the entity, each copied data child; property groups use the
+      same rule on their own registry): if the identifier is held in the target workspace the copy gets the next
+      uuid4(), which no instance carries (copy_same_ws_fresh: the source itself holds it there); if nobody holds it the
+      identifier is kept (copy_other_ws_keeps_when_free) *)
+Theorem C06_copy_identifier_rule : forall c h ws u,
+  let w := run c init h in
+  ((exists e, holds w ws u e) -> snd (copy_uid w ws u) = fresh w /\ forall e, euid (E w e) <> fresh w)
+  /\ ((forall e, ~ holds w ws u e) -> snd (copy_uid w ws u) = u).
+Proof. exact copy_identifier_rule. Qed.
+Print Assumptions C06_copy_identifier_rule.
+
+Theorem C06_copy_same_ws_fresh : forall c h e,
+  let w := run c init h in
+  owner w e -> ekind (E w e) <> KType ->
+  snd (copy_uid w (ews (E w e)) (euid (E w e))) = fresh w /\ forall e', euid (E w e') <> fresh w.
+Proof.
+  intros c h e w Ho Hk. apply (copy_identifier_rule c h (ews (E w e)) (euid (E w e))).
+  exists e. apply holds_self; assumption.
+Qed.
+Print Assumptions C06_copy_same_ws_fresh.
+
+Theorem C06_copy_other_ws_keeps_when_free : forall c h ws u,
+  let w := run c init h in
+  (forall e, ~ holds w ws u e) -> snd (copy_uid w ws u) = u.
+Proof. intros c h ws u w. apply (copy_identifier_rule c h ws u). Qed.
+Print Assumptions C06_copy_other_ws_keeps_when_free.
+
+(* 5. one_type_per_class (PARTIAL): EntityType.find_or_create returns the live type registered under the class's
+      identifier and creates nothing; that every live group/object's type IS that registered type is compared with the
+      implementation on every case and checked by the oracle, not proved as an invariant *)
+Theorem C06_type_reused : forall c h ws cls t,
+  let w := run c init h in
+  In (tuid cls, t) (R w ws KType) -> alive w t = true ->
+  snd (find_or_create_type w ws cls) = t /\ n (fst (find_or_create_type w ws cls)) = n w.
+Proof. intros c h ws cls t w. apply type_reused. apply reachable_good. Qed.
+Print Assumptions C06_type_reused.
+
+(* 6. refused creation.  FULL STRENGTH, REFUTED for the pinned constructor order (parent assignment before
+      registration): the refused object stays in root.children ... *)
+Theorem C06_refused_creation_no_side_effect_refuted : ~ refused_creation_no_side_effect_full pinned.
+Proof. exact refused_creation_no_side_effect_refuted. Qed.
+Print Assumptions C06_refused_creation_no_side_effect_refuted.
+
+(* ... with the rollback the refused instance is in no children / property-group list of its parent and is dead *)
+Theorem C06_refused_creation_rolled_back : forall c w ws k cls par u ty props w' x,
+  rollback c = true -> construct c w ws k cls par u ty props = (w', Refused, x) ->
+  x = n w /\ ~ In x (ech (E w' par)) /\ ~ In x (epgs (E w' par)) /\ alive w' x = false.
+Proof. exact refused_rollback_detached. Qed.
+Print Assumptions C06_refused_creation_rolled_back.
+
+(* ------------------------------------------------------------------------------------------------------------------
+   non-vacuity *)
+Example C06_nonvacuous_copy :
+  forall c, let w := run c init h_copy in
+  n w = 15
+  /\ map (fun e => uidrep w (euid (E w e))) [5; 6; 7; 8; 9; 10; 12; 13; 14] = [5; 6; 7; 8; 9; 10; 5; 6; 7]
+  /\ etype (E w 5) = etype (E w 8) /\ etype (E w 12) = 11.
+Proof. exact copy_example. Qed.
+
+Example C06_nonvacuous_refused_repaired :
+  let w := run repaired init h_dup in
+  let w' := fst (step repaired w (OCreate 0 true 1 (USame 5))) in
+  snd (step repaired w (OCreate 0 true 1 (USame 5))) = Refused
+  /\ ech (E w' 1) = ech (E w 1) /\ ech (E w 1) = [5] /\ alive w' 6 = false /\ flat w' 0 = flat w 0.
+Proof. exact refused_creation_repaired_example. Qed.
